@@ -1,15 +1,268 @@
 /-
-C02 property theorems (statements only; proofs in Lemmas*.lean).
+C02 property theorems: "the active chain is the most-work fully-valid chain, whatever the delivery
+order; every view of it agrees; invalidate / reconsider move the tip to the best chain".
+
+Only statements + non-vacuity examples live here; proofs are in Lemmas.lean … Lemmas7.lean.
+
+Vocabulary (Spec.lean / Model.lean): a history `ops : List Op` is a list of deliveries
+(`block b`, `header b`) and manual ops (`invalidate h`, `reconsider h`); `run ops` is the state of the
+`ChainCore` machine (mirror of btcd's ProcessBlock/…); `Spec.delivered ops` are the blocks delivered with
+their data; `Spec.ValidChain D h w` says `h` ends a chain of delivered, fully valid blocks of cumulative
+work `w`; `Spec.IsBest D t` says `t` ends such a chain and none has more work.
+
+Hypotheses used below (all decidable on a concrete history, see the examples at the end):
+* `deliveryOnly ops`     — the clause is about deliveries (block/header ops) only;
+* `Spec.WF (mentioned …)`— block hashes identify blocks (collision-freeness), no block claims the genesis
+                           hash, every block has positive work (C09);
+* `(run ops).evicted = []` — the orphan pool never overflowed its bound of 100 (an evicted orphan was
+                           delivered but is forgotten by design; wall-clock expiry is not modelled).
 -/
-import BV.C02.Model
+import BV.C02.Lemmas7
 import BV.Generated.C02
 namespace BV.C02
+open Spec Lemmas
 
-/-- pinned constants regenerated from the tree -/
+/-! ### 1. the tip is the best chain -/
+
+/-- After ANY sequence of block and header deliveries — any order, forks, orphans (children before
+parents), duplicates, blocks invalid at any stage and at any depth — the tip of the active chain ends a
+chain of delivered, fully valid blocks, and no chain of delivered, fully valid blocks has more work. -/
+theorem tip_is_best (ops : List Op) (hdo : deliveryOnly ops) (hwf : WF (mentioned ops))
+    (hev : (run ops).evicted = []) : IsBest (delivered ops) (run ops).tip :=
+  run_isBest ops hdo hwf hev
+
+/-- First-seen rule ("ties going to the chain that became active first"): one more delivery either
+leaves the whole active chain as it is or moves it to a chain of STRICTLY greater cumulative work;
+an equal-work chain never displaces the active one. -/
+theorem first_seen_rule (ops : List Op) (o : Op) (hdo : deliveryOnly (ops ++ [o]))
+    (hwf : WF (mentioned (ops ++ [o]))) :
+    (run (ops ++ [o])).best = (run ops).best ∨
+      (run ops).wsum (run ops).tip < (run (ops ++ [o])).wsum (run (ops ++ [o])).tip :=
+  step_first_seen ops o hdo hwf
+
+/-! ### 2. failed reorganisations -/
+
+/-- `connectBestChain` that ends in an error — a block extending the tip that fails its connect-time
+check, a reorganisation whose attach list contains an invalid block, or one that is refused because
+of a known-invalid ancestor — leaves the active chain, the notification stream, the index, the orphan
+pool exactly as they were: nothing but status bits changes. For every state and node. -/
+theorem failed_reorg_is_noop (s : State) (n : Node) (h : (connectBest s n).2 = none) :
+    (connectBest s n).1.best = s.best ∧ (connectBest s n).1.notes = s.notes ∧
+    (connectBest s n).1.idx = s.idx ∧ (connectBest s n).1.orphans = s.orphans := by
+  have := connectBest_fail s n h
+  exact ⟨this.2.1, this.2.2, this.1.1, this.1.2.1⟩
+
+/-- the same for `reorganizeChain` itself (also used by InvalidateBlock / ReconsiderBlock) -/
+theorem failed_reorganize_is_noop (s : State) (detach : List Hash) (attach : List Node)
+    (h : (reorganize s detach attach).2 ≠ .ok) :
+    (reorganize s detach attach).1.best = s.best ∧ (reorganize s detach attach).1.notes = s.notes := by
+  have := reorganize_fail s detach attach h
+  exact ⟨this.2.1, this.2.2⟩
+
+/-! ### 3. the views agree -/
+
+/-- Σ connected − Σ disconnected notifications = the active chain, after EVERY history — deliveries,
+InvalidateBlock and ReconsiderBlock included: replaying the NTBlockConnected/NTBlockDisconnected stream
+from genesis reproduces `best` exactly. -/
+theorem notifications_replay_to_chain (ops : List Op) : replay (run ops).notes = (run ops).best :=
+  rep_run ops
+
+/-- After any delivery history all views describe one chain: the snapshot tip is the head of `best`
+(definition of `tip`); `best` (= BlockHashByHeight / the persisted height index / MainChainHasBlock)
+ends in genesis, consecutive entries are linked by the parent pointer, the entry at position `i` from
+the tip has node height `length − 1 − i` (so hash↔height lookups agree with the nodes), every entry is
+stored, marked valid (genesis aside) and not marked invalid; ChainTips reports exactly the tip as
+`active`, with branch length 0 and its node height; and the notifications replay to `best`. -/
+theorem views_agree (ops : List Op) (hdo : deliveryOnly ops) (hwf : WF (mentioned ops)) :
+    let s := run ops
+    replay s.notes = s.best ∧
+    s.best.getLast? = some 0 ∧
+    (∀ i c p, s.best[i]? = some c → s.best[i + 1]? = some p →
+      ∃ n, lookup s.idx c = some n ∧ n.blk.parent = p) ∧
+    (∀ i c, s.best[i]? = some c → ∃ n, lookup s.idx c = some n ∧ n.height + i + 1 = s.best.length) ∧
+    (∀ c ∈ s.best, (s.status c).data = true ∧ (c ≠ 0 → (s.status c).valid = true) ∧
+      (s.status c).knownInvalid = false) ∧
+    (∀ t ∈ chainTips s, t.2.2.2 = .active ↔ t.1 = s.tip) ∧
+    (∃ n, lookup s.idx s.tip = some n ∧ (s.tip, n.height, 0, TipStatus.active) ∈ chainTips s) := by
+  intro s
+  obtain ⟨D', _, hi⟩ := run_inv ops hdo hwf
+  obtain ⟨a, b, c, d⟩ := pathOK_plain hi.c hi.c.path
+  have hne : s.best ≠ [] := by
+    intro e
+    have hp := hi.c.path
+    have e' : (run ops).best = [] := e
+    rw [e'] at hp; cases hp
+  have htip : ∃ n, lookup s.idx s.tip = some n := by
+    have hb := hi.c.path
+    cases hbb : (run ops).best with
+    | nil => exact absurd hbb hne
+    | cons t r =>
+      have : (run ops).best[0]? = some t := by rw [hbb]; rfl
+      obtain ⟨n, hn, _⟩ := c 0 t this
+      have ht : s.tip = t := by show (run ops).best.headD 0 = t; rw [hbb]; rfl
+      exact ⟨n, by rw [ht]; exact hn⟩
+  obtain ⟨n, hn⟩ := htip
+  obtain ⟨t1, t2⟩ := chainTips_active s hne n hn
+  exact ⟨rep_run ops, a, b, c, d, t1, n, hn, t2⟩
+
+/-! ### 4. order independence -/
+
+/-- Any two delivery histories that deliver the same set of blocks (in any order, with any
+duplicates, headers, orphan detours) end on best tips of the same delivered set, of equal cumulative
+work; if the best tip is unique they end on the same tip. (With several equal-work best tips the
+first-seen rule decides, which depends on the order by design.) -/
+theorem order_independent (ops1 ops2 : List Op) (hd1 : deliveryOnly ops1) (hd2 : deliveryOnly ops2)
+    (hwf : WF (mentioned ops1 ++ mentioned ops2))
+    (he1 : (run ops1).evicted = []) (he2 : (run ops2).evicted = [])
+    (hsame : ∀ b, b ∈ delivered ops1 ↔ b ∈ delivered ops2) :
+    IsBest (delivered ops1) (run ops1).tip ∧ IsBest (delivered ops1) (run ops2).tip ∧
+    (∃ w, ValidChain (delivered ops1) (run ops1).tip w ∧ ValidChain (delivered ops1) (run ops2).tip w) ∧
+    ((∀ t t', IsBest (delivered ops1) t → IsBest (delivered ops1) t' → t = t') →
+      (run ops1).tip = (run ops2).tip) := by
+  have w1 : WF (mentioned ops1) := wf_sub (fun x hx => List.mem_append_left _ hx) hwf
+  have w2 : WF (mentioned ops2) := wf_sub (fun x hx => List.mem_append_right _ hx) hwf
+  have b1 := run_isBest ops1 hd1 w1 he1
+  have b2 : IsBest (delivered ops1) (run ops2).tip :=
+    isBest_congr (fun x => (hsame x).symm) (run_isBest ops2 hd2 w2 he2)
+  exact ⟨b1, b2, isBest_same_work b1 b2, fun hu => hu _ _ b1 b2⟩
+
+/-! ### 5. InvalidateBlock / ReconsiderBlock
+
+The property clause "invalidating or reconsidering a block moves the tip to the best chain that
+excludes or again includes it" does NOT hold for btcd as it stands (findings F-C02-a, F-C02-b). What is
+proved: the notification/chain agreement for every such op (`notifications_replay_to_chain`), failed
+reorganisations are no-ops (`failed_reorganize_is_noop`), and the clause itself when the invalidated
+block is not on the active chain. The two `_full_fails` theorems are the counter-examples, checked by
+evaluation of the model (which the correspondence run ties to the real code on the same histories). -/
+
+/-- `_partial`: proved under the extra hypothesis that the invalidated block is NOT on the active chain
+(the negation of the F-C02-a trigger, which needs an active-chain block with side branches above it).
+Missing: invalidation of an active-chain block — false in general, see `…_full_fails`. -/
+theorem invalidate_moves_to_best_partial (ops : List Op) (h : Hash) (c : Option Hash)
+    (hdo : deliveryOnly ops) (hwf : WF (mentioned ops)) (hev : (run ops).evicted = [])
+    (hna : (run ops).best.contains h = false) :
+    IsBestEx (delivered ops) [h] (run (ops ++ [.invalidate h c])).tip :=
+  (invalidate_inactive_isBestEx ops h c hdo hwf hev hna).2
+
+def vb (i p : Nat) : BlockAbs := ⟨i, p, 1, true, true, true, true⟩
+
+/-- F-C02-a: G–A1..A5 active, C3–C4 off A2, D1–D3 off genesis; invalidate A1 -/
+def witnessA : List Op :=
+  [.block (vb 1 0), .block (vb 2 1), .block (vb 3 2), .block (vb 4 3), .block (vb 5 4),
+   .block (vb 6 2), .block (vb 7 6), .block (vb 8 0), .block (vb 9 8), .block (vb 10 9),
+   .invalidate 1 none]
+
+/-- F-C02-b: A1–A4, B1→{B2a},{B2b→B3b}; invalidate B1, invalidate A3, reconsider B1 with the
+implementation's map-order choice falling on the short branch B2a -/
+def witnessB : List Op :=
+  [.block (vb 1 0), .block (vb 2 1), .block (vb 3 2), .block (vb 4 3), .block (vb 5 0),
+   .block (vb 6 5), .block (vb 7 5), .block (vb 8 7),
+   .invalidate 5 none, .invalidate 3 none, .reconsider 5 (some 6)]
+
+theorem witnessA_tip : (run witnessA).tip = 0 := by decide
+theorem witnessB_tip : (run witnessB).tip = 2 := by decide
+
+/-- The full clause fails for InvalidateBlock: after `witnessA` the tip is genesis (work 0) although
+D1–D3, which avoids the invalidated block, is delivered, valid and has work 3. -/
+theorem invalidate_moves_to_best_full_fails :
+    ¬ ∀ ops : List Op, WF (mentioned ops) → (run ops).evicted = [] →
+        IsBestEx (delivered ops) (excluded ops) (run ops).tip := by
+  intro h
+  have hb := h witnessA (by decide) (by decide)
+  rw [witnessA_tip] at hb
+  obtain ⟨w, hv, hm⟩ := hb
+  have hw : w = 0 := by
+    rcases validChainEx_inv hv with ⟨_, h0⟩ | ⟨b, w', hbm, _, _, hh, _, _⟩
+    · exact h0
+    · have : ∀ x ∈ delivered witnessA, x.hash ≠ 0 := by decide
+      exact absurd hh (this b hbm)
+  have c1 : ValidChainEx (delivered witnessA) (excluded witnessA) 8 (0 + 1) :=
+    ValidChainEx.step (b := vb 8 0) (by decide) (by decide) (by decide) ValidChainEx.genesis
+  have := hm 8 1 c1
+  omega
+
+/-- The full clause fails for ReconsiderBlock: after `witnessB` (a choice btcd's map iteration can
+make) the tip is A2 (work 2) although B1–B2b–B3b is delivered, valid, not excluded and has work 3. -/
+theorem reconsider_moves_to_best_full_fails :
+    ¬ ∀ ops : List Op, WF (mentioned ops) → (run ops).evicted = [] →
+        IsBestEx (delivered ops) (excluded ops) (run ops).tip := by
+  intro h
+  have hb := h witnessB (by decide) (by decide)
+  obtain ⟨w, hv, hm⟩ := hb
+  rw [witnessB_tip] at hv
+  -- the tip chain G–A1–A2 has work 2 …
+  have hw : w = 2 := by
+    rcases validChainEx_inv hv with ⟨h0, _⟩ | ⟨b, w', hbm, _, _, hh, hwe, hp⟩
+    · cases h0
+    · have hb2 : b = vb 2 1 := by
+        have : ∀ x ∈ delivered witnessB, x.hash = 2 → x = vb 2 1 := by decide
+        exact this b hbm hh
+      subst hb2
+      rcases validChainEx_inv hp with ⟨h0, _⟩ | ⟨b1, w1, hbm1, _, _, hh1, hwe1, hp1⟩
+      · cases h0
+      · have hb1 : b1 = vb 1 0 := by
+          have : ∀ x ∈ delivered witnessB, x.hash = (vb 2 1).parent → x = vb 1 0 := by decide
+          exact this b1 hbm1 hh1
+        subst hb1
+        rcases validChainEx_inv hp1 with ⟨_, h0⟩ | ⟨b0, w0, hbm0, _, _, hh0, _, _⟩
+        · subst h0; subst hwe1; subst hwe; rfl
+        · have : ∀ x ∈ delivered witnessB, x.hash ≠ (vb 1 0).parent := by decide
+          exact absurd hh0 (this b0 hbm0)
+  -- … but B1–B2b–B3b has work 3
+  have c5 : ValidChainEx (delivered witnessB) (excluded witnessB) 5 (0 + 1) :=
+    ValidChainEx.step (b := vb 5 0) (by decide) (by decide) (by decide) ValidChainEx.genesis
+  have c7 : ValidChainEx (delivered witnessB) (excluded witnessB) 7 (0 + 1 + 1) :=
+    ValidChainEx.step (b := vb 7 5) (by decide) (by decide) (by decide) c5
+  have c8 : ValidChainEx (delivered witnessB) (excluded witnessB) 8 (0 + 1 + 1 + 1) :=
+    ValidChainEx.step (b := vb 8 7) (by decide) (by decide) (by decide) c7
+  have := hm 8 3 c8
+  omega
+
+/-- `_partial`: reconsidering a block that is (still) marked valid — in particular any block of the
+active chain after a delivery history — changes nothing at all, so the tip stays the best chain.
+Missing: reconsidering a block that was invalidated before — false in general, see `…_full_fails`. -/
+theorem reconsider_moves_to_best_partial (s : State) (h : Hash) (c : Option Hash) (n : Node)
+    (hl : lookup s.idx h = some n) (hv : (s.status h).valid = true) : (reconsider s h c).1 = s :=
+  reconsider_valid_noop s h c n hl hv
+
+/-! ### 6. pinned constants -/
+
 theorem pin_maxOrphans : Generated.C02.maxOrphanBlocks = (maxOrphans : Int) := by decide
 
 theorem pin_status_bits :
     Generated.C02.statusDataStored = 1 ∧ Generated.C02.statusValid = 2 ∧ Generated.C02.statusValidateFailed = 4 ∧
     Generated.C02.statusInvalidAncestor = 8 ∧ Generated.C02.statusHeaderStored = 16 := by decide
+
+/-- the status byte of the model uses the same bit positions -/
+theorem pin_status_byte :
+    (Status.toByte { data := true } : Int) = Generated.C02.statusDataStored ∧
+    (Status.toByte { valid := true } : Int) = Generated.C02.statusValid ∧
+    (Status.toByte { failed := true } : Int) = Generated.C02.statusValidateFailed ∧
+    (Status.toByte { invalidAnc := true } : Int) = Generated.C02.statusInvalidAncestor ∧
+    (Status.toByte { header := true } : Int) = Generated.C02.statusHeaderStored := by decide
+
+theorem pin_tip_status :
+    Generated.C02.tipStatusUnknown = 0 ∧ Generated.C02.tipStatusActive = 1 ∧
+    Generated.C02.tipStatusInvalid = 2 ∧ Generated.C02.tipStatusValidFork = 3 := by decide
+
+theorem pin_notifications :
+    Generated.C02.ntBlockAccepted = 0 ∧ Generated.C02.ntBlockConnected = 1 ∧
+    Generated.C02.ntBlockDisconnected = 2 := by decide
+
+/-! ### 7. the hypotheses are satisfiable -/
+
+/-- a history with a fork, an orphan detour, a duplicate, a header, and an invalid-at-connect block -/
+def sampleOps : List Op :=
+  [.block (vb 3 2), .header (vb 1 0), .block (vb 1 0), .block (vb 2 1), .block (vb 2 1),
+   .block (vb 4 0), .block ⟨5, 3, 1, true, true, true, false⟩, .block (vb 6 4), .block (vb 7 6), .block (vb 8 7)]
+
+example : deliveryOnly sampleOps ∧ WF (mentioned sampleOps) ∧ (run sampleOps).evicted = [] := by
+  refine ⟨by decide, by decide, by decide⟩
+
+example : (run sampleOps).tip = 8 := by decide
+
+example : IsBest (delivered sampleOps) 8 := by
+  have := tip_is_best sampleOps (by decide) (by decide) (by decide)
+  rwa [show (run sampleOps).tip = 8 by decide] at this
 
 end BV.C02
